@@ -313,6 +313,7 @@ pub fn by_family(fam: &str, seed: u64) -> Scenario {
         "pushRaceBc" => push_race_bc(seed),
         "cancelA" => cancel_a(seed),
         "capWaitBc" => cap_wait_bc(seed),
+        "pingsA" => pings_a(seed),
         _ => mix_a(seed, false),
     }
 }
@@ -2041,6 +2042,46 @@ pub fn cap_wait_bc(seed: u64) -> Scenario {
         s.env.push(EnvStep { at: "q".into(), n: q, op: EnvOp::Census });
     }
     s.drop_sr_when_done = true;
+    s.coop = true;
+    s
+}
+
+// ---------------------------------------------------------------------------
+// Mode A, cooperative: user PINGs one after the other through the same PingPong handle, from either endpoint, at quiet
+// moments (nothing else wakes the connection task) and beside traffic. Every accepted send_ping must reach the wire and
+// its pong must come back (C14 user ping, C06: the ping handle wakes the connection task every time, not only the first).
+pub fn pings_a(seed: u64) -> Scenario {
+    let mut rng = StdRng::seed_from_u64(seed ^ 0x9196_5A);
+    let mut s = Scenario::default();
+    s.name = format!("pingsA-{}", seed);
+    s.mode = "A".into();
+    s.sched.seed = seed;
+    s.aims = vec!["C06".into(), "C14".into()];
+    let nreq = rng.gen_range(0..3u32);
+    for i in 0..nreq {
+        let mut r = ReqProg::default();
+        r.tag = i + 1;
+        r.ready = true;
+        r.method = "POST".into();
+        r.start_q = Some(rng.gen_range(0..6));
+        r.ops = vec![SendOp::Data { n: pick(&mut rng, &[1usize, 1000, 20000]), eos: true }];
+        r.read = ReadPol::default();
+        s.reqs.push(r);
+    }
+    s.srv.push(SrvProg { ops: vec![SendOp::Response { status: 200, hid: 0, eos: false }, SendOp::Data { n: pick(&mut rng, &[0usize, 500]), eos: true }], read: ReadPol::default(), note: String::new() });
+    let both = rng.gen_bool(0.3);
+    let ep0 = rng.gen_range(0..2usize);
+    let mut q = 1u64;
+    for _ in 0..rng.gen_range(2..5) {
+        s.env.push(EnvStep { at: "q".into(), n: q, op: EnvOp::Ping { ep: ep0 } });
+        if both {
+            s.env.push(EnvStep { at: "q".into(), n: q, op: EnvOp::Ping { ep: 1 - ep0 } });
+        }
+        q += rng.gen_range(1..4);
+    }
+    // keep the SendRequest handle until all pings are through, then let the connection close itself
+    s.drop_sr_when_done = false;
+    s.env.push(EnvStep { at: "q".into(), n: q + 3, op: EnvOp::DropSr });
     s.coop = true;
     s
 }
